@@ -1,5 +1,820 @@
-//! C17 - monitor not built yet.
+//! C17 - A KML statement is all-or-nothing and versions each element once.
+//!
+//! Monitors (DESIGN.md C17):
+//! * `seq`: generated KML statement sequences through `parse_kip` + the real executor; after every
+//!   statement the full observable state (direct scan of the ten cognitive collections + a fixed
+//!   KQL/META battery incl. AS OF reads at every earlier coordinate) is compared with the state
+//!   before it: refused / dry-run statements must change nothing (the Space sequence counter may
+//!   skip), committed statements must be explained exactly by their receipt (one journal row, one
+//!   version bump and one version-log row per named element, nothing else touched).
+//! * `vis`: readers concurrent with writers on a multi-thread runtime must see all or none of a
+//!   statement's elements.
+//! * `crash`: RecStore below the engine; every crash prefix must reopen and expose no pending row;
+//!   partial commits at a crash are measured (documented: no write-ahead log).
+
+use anda_cognitive_nexus::governance::{
+    AuthContext, SYSTEM_PRINCIPAL,
+    rows::{AuthorityScope, principal_class},
+    store::{GrantDraft, PrincipalDraft},
+};
+use anda_cognitive_nexus::nexus::{DEFAULT_SPACE, Session};
+use anda_cognitive_nexus::{CognitiveNexus, SpaceDraft};
+use object_store::memory::InMemory;
+use serde_json::Value;
+use std::collections::{BTreeMap, BTreeSet};
+use std::sync::Arc;
+use std::sync::atomic::{AtomicBool, AtomicU64, Ordering};
+use v_nexus::nx1718::*;
+use vcore::recstore::RecStore;
+use vcore::{Rng, Run, Stats, json};
+
+const OTHER_SPACE: &str = "kip:space:other";
+const RESTRICTED: &str = "kip:principal:restricted";
+
+// ---------------------------------------------------------------------------------------------
+// observation: collections + KQL/META battery
+
+fn sorted_rows(v: Value) -> Value {
+    match v {
+        Value::Array(mut a) => {
+            a.sort_by_key(canon);
+            Value::Array(a)
+        }
+        o => o,
+    }
+}
+
+fn mask_coordinates(mut v: Value) -> Value {
+    if let Some(m) = v.as_object_mut() {
+        for k in ["snapshot_seq", "snapshot_token", "seq"] {
+            if m.contains_key(k) {
+                m.insert(k.to_string(), json!("<masked>"));
+            }
+        }
+    }
+    v
+}
+
+const STATES: [&str; 7] = ["active", "archived", "tombstoned", "merged", "pending", "purged", "quarantined"];
+const KINDS: [&str; 4] = ["CONCEPT", "ASSERTION", "EVIDENCE", "ACTIVITY"];
+
+fn asof_queries(k: u64) -> Vec<String> {
+    vec![
+        format!("FIND(?c.id, ?c._system.version, ?c._system.state, ?c.name, ?c.attributes) WHERE {{ ?c CONCEPT {{}} }} AS OF SEQ {k}"),
+        format!("FIND(?p.id, ?s.id, ?pr, ?p._system.version) WHERE {{ ?p PROPOSITION (?s, ?pr, ?o) }} AS OF SEQ {k}"),
+        format!("FIND(?a.id, ?a.lifecycle.status, ?a._system.version) WHERE {{ ?a ASSERTION {{}} }} AS OF SEQ {k}"),
+        format!("FIND(COUNT(?e)) WHERE {{ ?e EVIDENCE {{}} }} AS OF SEQ {k}"),
+    ]
+}
+
+struct Obs {
+    scan: Scan,
+    rows: BTreeMap<String, String>,
+    battery: BTreeMap<String, String>,
+    /// coordinate -> query family index -> answer
+    asof: BTreeMap<u64, Vec<String>>,
+    seq: u64,
+    n_queries: u64,
+}
+
+async fn run_q(nexus: &CognitiveNexus, q: &str, mask: bool) -> Result<String, String> {
+    Ok(match read(nexus, q).await {
+        Ok(v) => {
+            let v = if mask { mask_coordinates(v) } else { v };
+            canon(&sorted_rows(v))
+        }
+        Err(code) if code.starts_with("HARNESS") => return Err(format!("{code} in {q}")),
+        Err(code) => format!("ERR {code}"),
+    })
+}
+
+async fn observe(nexus: &CognitiveNexus) -> Result<Obs, String> {
+    let scan = scan(nexus).await?;
+    let seq = space_seq(&scan);
+    let mut battery = BTreeMap::new();
+    let mut qs: Vec<(String, bool)> = vec![];
+    for k in KINDS {
+        for s in STATES {
+            qs.push((format!("FIND(?x) WHERE {{ ?x {k} {{state: \"{s}\"}} }}"), false));
+        }
+        qs.push((format!("FIND(COUNT(?x)) WHERE {{ ?x {k} {{}} }}"), false));
+    }
+    qs.push(("FIND(?p) WHERE { ?p PROPOSITION (?s, ?pr, ?o) }".into(), false));
+    qs.push(("FIND(COUNT(?p)) WHERE { ?p PROPOSITION (?s, ?pr, ?o) }".into(), false));
+    qs.push(("FIND(?x.id, ?y.id) WHERE { STRUCTURAL (?x, \"about\", ?y) }".into(), false));
+    qs.push(("FIND(?x.id, ?y.id) WHERE { STRUCTURAL (?x, \"mentions\", ?y) }".into(), false));
+    qs.push(("FIND(?a.id, ?b.id) WHERE { (?a, \"same_as\"{1,3}, ?b) }".into(), false));
+    qs.push((format!("FIND(?p.id, ?b) WHERE {{ ?p PROPOSITION (?s, ?pr, ?o) ?b BELIEF (?p) }} FOR TIME \"{PIN_TIME}\""), false));
+    qs.push(("HISTORY SPACE".into(), false));
+    qs.push(("CHANGES AFTER SEQ 0 LIMIT 100000".into(), false));
+    qs.push(("DESCRIBE SNAPSHOT".into(), true));
+    qs.push(("SNAPSHOT".into(), true));
+    qs.push(("DESCRIBE SPACE".into(), true));
+    qs.push(("LIST SCHEMA PACKAGES".into(), false));
+    qs.push(("DESCRIBE SCHEMA ENVIRONMENT".into(), false));
+    for id in elements(&scan).keys() {
+        qs.push((format!("HISTORY ELEMENT \"{id}\""), false));
+    }
+    let mut n = 0u64;
+    for (q, mask) in qs {
+        let a = run_q(nexus, &q, mask).await?;
+        n += 1;
+        battery.insert(q, a);
+    }
+    let mut asof = BTreeMap::new();
+    for k in 0..=seq {
+        if seq > 28 && k + 10 < seq && k % 3 != 0 {
+            continue;
+        }
+        let mut v = vec![];
+        for q in asof_queries(k) {
+            v.push(run_q(nexus, &q, false).await?);
+            n += 1;
+        }
+        asof.insert(k, v);
+    }
+    Ok(Obs { rows: masked(&scan), scan, battery, asof, seq, n_queries: n })
+}
+
+// ---------------------------------------------------------------------------------------------
+// oracles
+
+fn ctx(case: u64, history: &[Value], stmt: &Stmt, out: &Outcome) -> Value {
+    json!({"case": case, "statement": stmt.cmd.describe(), "clause_kinds": stmt.kinds,
+           "injected_failure": stmt.fail.map(|(c, p)| format!("{c}@{p}")),
+           "dry": stmt.dry, "restricted_session": stmt.restricted,
+           "response": {"succeeded": out.succeeded, "error_code": out.error_code,
+                        "error_message": clip(&out.error_message), "receipt_status": out.receipt_status,
+                        "space_seq": out.space_seq, "result": out.result},
+           "history": history})
+}
+
+/// Refused or dry-run statement: nothing observable may differ (the counter may skip).
+/// Rows left in state `pending` are reported under their own signature (with whether a query
+/// can see them); `collections_changed` / `query_answers_changed` are about everything else.
+fn check_unchanged(before: &Obs, after: &Obs, what: &str, code: &str, st: &mut Stats, ctx: &dyn Fn() -> Value) {
+    st.count("oracle_obs_equal");
+    let class = if code.is_empty() { what.to_string() } else { format!("{what}/{code}") };
+    let newp: Vec<String> = pending_ids(&after.scan).difference(&pending_ids(&before.scan)).cloned().collect();
+    st.count("oracle_no_pending_left");
+    let is_pending_query = |q: &str| q.contains("{state: \"pending\"}");
+    if !newp.is_empty() {
+        let visible: Vec<&String> = after
+            .battery
+            .iter()
+            .filter(|(q, a)| is_pending_query(q) && before.battery.get(*q) != Some(*a))
+            .map(|(q, _)| q)
+            .collect();
+        if !visible.is_empty() {
+            st.count("pending_rows_left_and_visible_to_a_query");
+        }
+        report_once(st, &format!("C17/{class}/pending_row_left"), || {
+            json!({"what": "rows in state `pending` remain after the statement returned", "pending": newp,
+                   "queries_that_show_them": visible, "context": ctx()})
+        });
+    }
+    let new_pending_keys: BTreeSet<String> = newp
+        .iter()
+        .filter_map(|id| coll_of_id(id).map(|(c, n)| format!("{c}/{n}")))
+        .collect();
+    let mut rows_after = after.rows.clone();
+    rows_after.retain(|k, _| !new_pending_keys.contains(k));
+    if before.rows != rows_after {
+        let d = diff_maps(&before.rows, &rows_after, 12);
+        report_once(st, &format!("C17/{class}/collections_changed"), || {
+            json!({"what": "a statement that did not commit changed stored rows (beyond leaving pending rows)", "diff": d, "context": ctx()})
+        });
+    }
+    let strip = |m: &BTreeMap<String, String>| -> BTreeMap<String, String> {
+        m.iter()
+            .filter(|(q, _)| !(is_pending_query(q) && !newp.is_empty()))
+            .filter(|(q, _)| !newp.iter().any(|id| **q == format!("HISTORY ELEMENT \"{id}\"")))
+            .map(|(q, a)| (q.clone(), a.clone()))
+            .collect()
+    };
+    let (bb, ba) = (strip(&before.battery), strip(&after.battery));
+    if bb != ba {
+        let d = diff_maps(&bb, &ba, 8);
+        report_once(st, &format!("C17/{class}/query_answers_changed"), || {
+            json!({"what": "KQL/META answers differ after a statement that did not commit", "diff": d, "context": ctx()})
+        });
+    }
+    for (k, a) in &before.asof {
+        st.count("oracle_asof_unchanged");
+        if after.asof.get(k).map(|b| b != a).unwrap_or(false) {
+            let b = after.asof[k].clone();
+            report_once(st, &format!("C17/{class}/past_read_changed"), || {
+                json!({"what": "an AS OF read at an earlier coordinate differs", "as_of_seq": k,
+                       "before": a.iter().map(|s| clip(s)).collect::<Vec<_>>(),
+                       "after": b.iter().map(|s| clip(s)).collect::<Vec<_>>(), "context": ctx()})
+            });
+            break;
+        }
+    }
+    // the coordinates the statement burnt read like the one before them
+    if after.seq > before.seq {
+        if let (Some(a), Some(b)) = (after.asof.get(&before.seq), after.asof.get(&after.seq)) {
+            st.count("oracle_burnt_coordinate_reads_as_previous");
+            if a != b {
+                report_once(st, &format!("C17/{class}/burnt_coordinate_differs"), || {
+                    json!({"what": "AS OF the sequence number a non-committing statement consumed differs from AS OF the one before",
+                           "previous": before.seq, "burnt": after.seq,
+                           "at_previous": a.iter().map(|s| clip(s)).collect::<Vec<_>>(),
+                           "at_burnt": b.iter().map(|s| clip(s)).collect::<Vec<_>>(), "context": ctx()})
+                });
+            }
+        }
+        st.count("seq_skipped_by_non_commit");
+    }
+}
+
+/// Committed statement: the difference is exactly what the receipt names.
+fn check_commit(before: &Obs, after: &Obs, out: &Outcome, max_seq_seen: u64, st: &mut Stats, ctx: &dyn Fn() -> Value) {
+    let seq = out.space_seq.unwrap_or(0);
+    let tx = out.tx_id.clone().unwrap_or_default();
+    let fail = |st: &mut Stats, sig: &str, d: Value| {
+        report_once(st, &format!("C17/commit/{sig}"), || json!({"what": d, "context": ctx()}));
+    };
+    st.count("oracle_receipt_seq_fresh");
+    if seq <= max_seq_seen || seq <= before.seq {
+        fail(st, "sequence_not_fresh", json!({"receipt_seq": seq, "max_seen_before": max_seq_seen, "space_seq_before": before.seq}));
+    }
+    if after.seq != seq {
+        fail(st, "space_counter_differs_from_receipt", json!({"receipt_seq": seq, "space_seq_after": after.seq}));
+    }
+    // journal: exactly one new row, for this transaction
+    st.count("oracle_one_journal_row");
+    let (jb, ja) = (&before.scan["transactions"], &after.scan["transactions"]);
+    let new_j: Vec<&Value> = ja.iter().filter(|(id, _)| !jb.contains_key(*id)).map(|(_, r)| r).collect();
+    let changed_j = jb.iter().any(|(id, r)| ja.get(id).map(|x| canon(x) != canon(r)).unwrap_or(true));
+    if new_j.len() != 1 || changed_j {
+        fail(st, "journal_rows", json!({"new_rows": new_j, "older_rows_changed_or_removed": changed_j}));
+    } else {
+        let j = new_j[0];
+        let want_status = if out.receipt_status == "committed" { "committed" } else { "no_effect" };
+        let jids: BTreeSet<String> = j["changed_ids"].as_array().map(|a| a.iter().filter_map(|x| x.as_str().map(|s| s.to_string())).collect()).unwrap_or_default();
+        let rids: BTreeSet<String> = out.changes().into_iter().map(|c| c.0).collect();
+        if j["seq"].as_u64() != Some(seq) || j["tx_id"] != json!(tx) || j["status"] != want_status || jids != rids {
+            fail(st, "journal_row_disagrees_with_receipt", json!({"journal": j, "receipt": out.raw["receipt"], "changes": out.result["changes"]}));
+        }
+    }
+    // elements: version delta 0 or 1, 1 exactly for the named ones
+    let named: BTreeMap<String, (String, u64)> = out.changes().into_iter().map(|c| (c.0, (c.1, c.2))).collect();
+    if named.len() != out.changes().len() {
+        fail(st, "change_list_names_an_element_twice", json!(out.result["changes"]));
+    }
+    let (eb, ea) = (elements(&before.scan), elements(&after.scan));
+    let mut ids: BTreeSet<&String> = eb.keys().collect();
+    ids.extend(ea.keys());
+    for id in ids {
+        st.count("oracle_version_delta");
+        let vb = eb.get(id).filter(|r| r["state"] != "pending").map(|r| r["version"].as_u64().unwrap_or(0)).unwrap_or(0);
+        match ea.get(id) {
+            None => {
+                if eb.get(id).map(|r| r["state"] != "pending").unwrap_or(false) {
+                    fail(st, "element_disappeared", json!({"id": id}));
+                }
+            }
+            Some(ra) => {
+                if ra["state"] == "pending" {
+                    if !eb.contains_key(id) {
+                        fail(st, "pending_row_left", json!({"id": id, "row": ra}));
+                    }
+                    continue;
+                }
+                let va = ra["version"].as_u64().unwrap_or(0);
+                match named.get(id) {
+                    Some((_, v)) => {
+                        st.count("oracle_version_delta_named");
+                        if va != vb + 1 || *v != va {
+                            fail(st, "version_delta_of_named_element_not_one", json!({"id": id, "before": vb, "after": va, "receipt_version": v}));
+                        }
+                        if ra["seq"].as_u64() != Some(seq) || ra["updated_tx"] != json!(tx) {
+                            fail(st, "changed_element_not_stamped_with_this_commit", json!({"id": id, "row_seq": ra["seq"], "row_updated_tx": ra["updated_tx"], "receipt_seq": seq}));
+                        }
+                    }
+                    None => {
+                        if va != vb || eb.get(id).map(|rb| canon(rb) != canon(ra)).unwrap_or(true) {
+                            fail(st, "unnamed_element_changed", json!({"id": id, "before": eb.get(id), "after": ra}));
+                        }
+                    }
+                }
+            }
+        }
+    }
+    for id in named.keys() {
+        if !ea.contains_key(id) {
+            fail(st, "named_element_missing", json!({"id": id}));
+        }
+    }
+    // version log: one new row per named element, equal to the stored row; nothing else moved
+    st.count("oracle_version_log_rows");
+    let (vb, va) = (&before.scan["element_versions"], &after.scan["element_versions"]);
+    if vb.iter().any(|(id, r)| va.get(id).map(|x| canon(x) != canon(r)).unwrap_or(true)) {
+        fail(st, "older_version_rows_changed_or_removed", json!(null));
+    }
+    let mut per: BTreeMap<String, Vec<&Value>> = BTreeMap::new();
+    for (id, r) in va {
+        if !vb.contains_key(id) {
+            per.entry(r["element"].as_str().unwrap_or("").to_string()).or_default().push(r);
+        }
+    }
+    for (el, rows) in &per {
+        if !named.contains_key(el) || rows.len() != 1 {
+            fail(st, "version_log_rows_not_one_per_changed_element", json!({"element": el, "new_rows": rows.len(), "named": named.contains_key(el)}));
+        }
+    }
+    for (el, (_, v)) in &named {
+        match per.get(el).and_then(|r| r.first()) {
+            None => fail(st, "changed_element_without_version_row", json!({"element": el})),
+            Some(r) => {
+                let cur = ea.get(el).map(|x| canon(x)).unwrap_or_default();
+                if r["version"].as_u64() != Some(*v) || r["seq"].as_u64() != Some(seq) || r["tx_id"] != json!(tx) || canon(&r["row"]) != cur {
+                    fail(st, "version_row_disagrees_with_stored_row", json!({"element": el, "version_row": r, "stored": ea.get(el)}));
+                }
+            }
+        }
+    }
+    // the other collections
+    for c in ["schema_packages", "schema_envs"] {
+        if before.scan[c] != after.scan[c] {
+            fail(st, "schema_collection_changed_by_kml", json!({"collection": c}));
+        }
+    }
+    let strip = |m: &BTreeMap<u64, Value>| -> Vec<String> {
+        m.values().map(|r| { let mut r = r.clone(); r["seq"] = json!(0); canon(&r) }).collect()
+    };
+    if strip(&before.scan["spaces"]) != strip(&after.scan["spaces"]) {
+        fail(st, "space_row_changed_beyond_counter", json!(null));
+    }
+    // earlier coordinates keep answering the same
+    for (k, a) in &before.asof {
+        if after.asof.get(k).map(|b| b != a).unwrap_or(false) {
+            st.count("commit_changed_past_read(C18 territory, counted)");
+        }
+    }
+}
+
+/// Identity: one element per proposition tuple, one concept per (type, key).
+fn check_identity(after: &Obs, st: &mut Stats, ctx: &dyn Fn() -> Value) {
+    st.count("oracle_identity_scan");
+    let mut tuples: BTreeMap<(String, String, String, String), Vec<u64>> = BTreeMap::new();
+    for (id, r) in &after.scan["propositions"] {
+        if r["state"] == "pending" {
+            continue;
+        }
+        let s = |k: &str| r[k].as_str().unwrap_or("").to_string();
+        tuples.entry((s("space"), s("subject_key"), s("predicate_ref"), s("object_key"))).or_default().push(*id);
+    }
+    for (t, ids) in tuples {
+        if ids.len() > 1 {
+            report_once(st, "C17/identity/two_propositions_share_a_tuple", || json!({"tuple": format!("{t:?}"), "ids": ids, "context": ctx()}));
+        }
+    }
+    let mut keys: BTreeMap<(String, String, String), Vec<u64>> = BTreeMap::new();
+    for (id, r) in &after.scan["concepts"] {
+        let s = |k: &str| r[k].as_str().unwrap_or("").to_string();
+        if r["state"] == "pending" || s("key").is_empty() {
+            continue;
+        }
+        keys.entry((s("space"), s("schema_ref"), s("key"))).or_default().push(*id);
+    }
+    for (k, ids) in keys {
+        if ids.len() > 1 {
+            report_once(st, "C17/identity/two_concepts_share_a_key", || json!({"key": format!("{k:?}"), "ids": ids, "context": ctx()}));
+        }
+    }
+}
+
+// ---------------------------------------------------------------------------------------------
+// monitor 1: statement sequences
+
+struct Fixture {
+    nexus: CognitiveNexus,
+    restricted: Session,
+}
+
+async fn fixture(store: Arc<dyn object_store::ObjectStore>, name: &str, with_other_space: bool) -> Result<Fixture, String> {
+    let nexus = open_nexus(store, name).await?;
+    activate_profile(&nexus).await?;
+    let gov = nexus.governance();
+    gov.ensure_principal(PrincipalDraft {
+        principal_id: RESTRICTED.into(),
+        principal_class: principal_class::AGENT.to_string(),
+        display_name: "restricted".into(),
+        auth_provider: "verif".into(),
+        auth_subject: "restricted".into(),
+    })
+    .await
+    .map_err(|e| format!("{e:?}"))?;
+    gov.create_grant(
+        GrantDraft {
+            space_id: DEFAULT_SPACE.into(),
+            grantee_principal: RESTRICTED.into(),
+            actions: vec!["read".into(), "create".into(), "update".into()],
+            scope: AuthorityScope { kinds: vec!["concept".into()], ..Default::default() },
+            ..Default::default()
+        },
+        SYSTEM_PRINCIPAL,
+    )
+    .await
+    .map_err(|e| format!("{e:?}"))?;
+    if with_other_space {
+        nexus
+            .store
+            .open_or_create_space(SpaceDraft {
+                space_id: OTHER_SPACE.into(),
+                name: "other".into(),
+                owner_principal: SYSTEM_PRINCIPAL.into(),
+                ..Default::default()
+            })
+            .await
+            .map_err(|e| format!("{e:?}"))?;
+        nexus.activate_schema(OTHER_SPACE, profile_lock()).await.map_err(|e| format!("{e:?}"))?;
+        let mut c = Cmd::new("CREATE CONCEPT ?f { TYPE \"Person\" NAME \"foreigner\" }");
+        c.space = Some(OTHER_SPACE.into());
+        let o = exec(&Via::System(&nexus), &c).await?;
+        if !o.committed() {
+            return Err(format!("seeding the other space failed: {} {}", o.error_code, o.error_message));
+        }
+    }
+    let restricted = nexus.session(AuthContext::principal(RESTRICTED));
+    Ok(Fixture { nexus, restricted })
+}
+
+fn seq_case(case: u64, rng: &mut Rng, st: &mut Stats, n_stmts: usize) {
+    let r = vcore::run::block_on(seq_case_async(case, rng, st, n_stmts));
+    if let Err(e) = r {
+        st.inconclusive(format!("C17 seq: harness trouble: {e}"));
+    }
+}
+
+async fn seq_case_async(case: u64, rng: &mut Rng, st: &mut Stats, n_stmts: usize) -> Result<(), String> {
+    let fx = fixture(Arc::new(InMemory::new()), &format!("c17_{case}"), true).await?;
+    let mut g = Gen { uid: 0, tag: format!("c{case}") };
+    let mut before = observe(&fx.nexus).await?;
+    let mut history: Vec<Value> = vec![];
+    let mut prev: Option<Stmt> = None;
+    let mut max_seq = before.seq;
+    let (mut n_commit, mut n_refused) = (0, 0);
+    let mut codes = BTreeSet::new();
+    for _ in 0..n_stmts {
+        let w = world_of(&before.scan);
+        let stmt = gen_stmt(rng, &mut g, &w, prev.as_ref(), &CFG_C17);
+        let via = if stmt.restricted { Via::Session(&fx.restricted) } else { Via::System(&fx.nexus) };
+        let out = exec(&via, &stmt.cmd).await?;
+        let after = observe(&fx.nexus).await?;
+        st.eval();
+        st.add("battery_queries", after.n_queries);
+        st.set("statement_shapes", vcore::fnv_str(&format!("{:?}{:?}{}", stmt.kinds, stmt.fail, stmt.dry)));
+        for k in &stmt.kinds {
+            st.count(&format!("clause:{k}"));
+        }
+        if stmt.kinds.len() > 1 {
+            st.count("multi_clause_statements");
+        }
+        if stmt.retry_of_previous {
+            st.count("retries_of_identical_request");
+        }
+        if stmt.cmd.idempotency_key.is_some() {
+            st.count("statements_with_idempotency_key");
+        }
+        let h2 = history.clone();
+        let (s2, o2) = (stmt.clone(), out.clone());
+        let cx = move || ctx(case, &h2, &s2, &o2);
+        if out.parse_error.is_some() {
+            st.count("stmt_refused_by_parser");
+            check_unchanged(&before, &after, "parser_refused", "", st, &cx);
+        } else if stmt.dry != "none" {
+            // PREVIEW KML answers `succeeded` with would_commit=false when the plan refuses
+            let inner_ok = if stmt.dry == "preview" { out.result["would_commit"] == json!(true) } else { out.succeeded };
+            st.count(&format!("dry_run:{}:{}", stmt.dry, if inner_ok { "would_commit" } else { "refused" }));
+            if out.space_seq.is_some() || out.result["receipt"]["space_seq"].is_u64() {
+                report_once(st, "C17/dry_run/reports_a_commit_sequence", &cx);
+            }
+            check_unchanged(&before, &after, "dry_run", "", st, &cx);
+        } else if out.committed() {
+            if out.receipt_status == "committed" {
+                st.count("stmt_committed");
+                n_commit += 1;
+            } else {
+                st.count("stmt_committed_no_effect");
+            }
+            check_commit(&before, &after, &out, max_seq, st, &cx);
+            max_seq = max_seq.max(out.space_seq.unwrap_or(0));
+        } else if out.succeeded {
+            report_once(st, "C17/succeeded_without_commit_sequence", &cx);
+        } else {
+            st.count("stmt_refused");
+            st.count(&format!("refused:{}", out.error_code));
+            codes.insert(out.error_code.clone());
+            n_refused += 1;
+            if let Some((class, pos)) = stmt.fail {
+                st.count(&format!("refused_class:{class}"));
+                st.count(&format!("refused_position:{pos}"));
+                st.set("refusal_class_x_position", vcore::fnv_str(&format!("{class}@{pos}")));
+            }
+            check_unchanged(&before, &after, "refused", &out.error_code, st, &cx);
+        }
+        if let (Some((class, _)), true) = (stmt.fail, out.succeeded && stmt.dry == "none") {
+            st.count(&format!("injected_failure_did_not_refuse:{class}"));
+        }
+        check_identity(&after, st, &cx);
+        max_seq = max_seq.max(after.seq);
+        history.push(json!({"cmd": stmt.cmd.describe(), "restricted": stmt.restricted,
+            "outcome": if out.committed() { format!("{}@{}", out.receipt_status, out.space_seq.unwrap_or(0)) }
+                       else if out.succeeded { "dry".to_string() } else { format!("refused:{}", out.error_code) }}));
+        if history.len() > 40 {
+            history.remove(0);
+        }
+        prev = Some(stmt);
+        before = after;
+    }
+    if n_commit >= 3 && n_refused >= 3 && codes.len() >= 2 {
+        st.distinct(vcore::hash_debug(&history));
+    }
+    st.sample(|| json!({"monitor": "seq", "case": case, "statements": history.iter().take(6).collect::<Vec<_>>()}));
+    Ok(())
+}
+
+// ---------------------------------------------------------------------------------------------
+// monitor 2: atomic visibility under real concurrency (multi-thread runtime)
+
+fn vis_case(case: u64, rng: &mut Rng, st: &mut Stats, rounds: usize, with_preview: bool) {
+    let rt = match tokio::runtime::Builder::new_multi_thread().worker_threads(4).enable_time().build() {
+        Ok(rt) => rt,
+        Err(e) => {
+            st.inconclusive(format!("C17 vis: runtime: {e}"));
+            return;
+        }
+    };
+    let b = rng.range(2, 5) as usize;
+    let seed = rng.next_u64();
+    let res: Result<Stats, String> = rt.block_on(async move {
+        let fx = fixture(Arc::new(InMemory::new()), &format!("c17v_{case}"), false).await?;
+        let nexus = fx.nexus.clone();
+        let done = Arc::new(AtomicBool::new(false));
+        let commits = Arc::new(AtomicU64::new(0));
+        let mut readers = vec![];
+        for r in 0..3u64 {
+            let (nexus, done, commits) = (nexus.clone(), done.clone(), commits.clone());
+            readers.push(tokio::spawn(async move {
+                let mut st = Stats::default();
+                let mut last_commits = 0;
+                let mut i = 0u64;
+                loop {
+                    let finished = done.load(Ordering::SeqCst);
+                    let q = match (i + r) % 3 {
+                        0 => "FIND(COUNT(?c)) WHERE { ?c CONCEPT {type: \"Event\"} }",
+                        1 => "FIND(?c.attributes.round) WHERE { ?c CONCEPT {type: \"Event\"} }",
+                        _ => "FIND(COUNT(?c)) WHERE { ?c CONCEPT {state: \"pending\"} }",
+                    };
+                    let c0 = commits.load(Ordering::SeqCst);
+                    let ans = read(&nexus, q).await;
+                    let c1 = commits.load(Ordering::SeqCst);
+                    st.count("vis_reads");
+                    if c1 != c0 || c1 != last_commits {
+                        st.count("vis_reads_overlapping_or_following_a_commit");
+                    }
+                    last_commits = c1;
+                    match ((i + r) % 3, ans) {
+                        (0, Ok(v)) => {
+                            let n = v[0].as_u64().unwrap_or(0) as usize;
+                            if n % b != 0 {
+                                report_once(&mut st, "C17/visibility/partial_statement_observed", || {
+                                    json!({"what": "a reader counted a number of elements that no set of whole statements produces", "count": n, "batch": b, "case": case})
+                                });
+                            }
+                        }
+                        (1, Ok(v)) => {
+                            let vals: BTreeSet<String> = v.as_array().map(|a| a.iter().filter(|x| !x.is_null()).map(|x| x.to_string()).collect()).unwrap_or_default();
+                            if vals.len() > 1 {
+                                report_once(&mut st, "C17/visibility/partial_update_observed", || {
+                                    json!({"what": "one UPDATE statement sets `round` on every Event; a reader saw two different values", "values": vals, "case": case})
+                                });
+                            }
+                        }
+                        (2, Ok(v)) => {
+                            if v[0].as_u64().unwrap_or(0) > 0 {
+                                if with_preview {
+                                    // PREVIEW KML runs its dry run under the shared lock
+                                    st.count("vis_reader_saw_pending_rows_while_previews_run(measured)");
+                                } else {
+                                    report_once(&mut st, "C17/visibility/pending_row_observed_by_reader", || {
+                                        json!({"what": "a reader saw a row in state `pending` although every writer statement takes the exclusive lock", "answer": v, "case": case})
+                                    });
+                                }
+                            }
+                        }
+                        (_, Err(e)) => st.inconclusive(format!("C17 vis: reader query failed: {e}")),
+                        _ => {}
+                    }
+                    i += 1;
+                    if finished {
+                        break;
+                    }
+                    tokio::task::yield_now().await;
+                }
+                st
+            }));
+        }
+        let mut wr = Rng::new(seed);
+        let mut wst = Stats::default();
+        for round in 0..rounds {
+            let cmd = match wr.weighted(&[40, 30, 15, if with_preview { 15 } else { 0 }]) {
+                0 => {
+                    let cl: Vec<String> = (0..b)
+                        .map(|i| format!("CREATE CONCEPT ?e{i} {{ TYPE \"Event\" NAME \"ev{round}_{i}\" SET ATTRIBUTES {{summary: \"s\", gen: {round}}} }}"))
+                        .collect();
+                    Cmd::new(format!("MUTATE {{ {} }}", cl.join(" ")))
+                }
+                1 => Cmd::new(format!("UPDATE ?m SET ATTRIBUTES {{round: {round}}} WHERE {{ ?m CONCEPT {{type: \"Event\"}} }}")),
+                2 => {
+                    // refused after the shells of a whole batch were minted
+                    let mut cl: Vec<String> = (0..b)
+                        .map(|i| format!("CREATE CONCEPT ?e{i} {{ TYPE \"Event\" NAME \"ghost{round}_{i}\" SET ATTRIBUTES {{summary: \"s\"}} }}"))
+                        .collect();
+                    cl.push("UPDATE \"C-99999\" SET ATTRIBUTES {x: 1}".into());
+                    Cmd::new(format!("MUTATE {{ {} }}", cl.join(" ")))
+                }
+                _ => {
+                    let cl: Vec<String> = (0..b)
+                        .map(|i| format!("CREATE CONCEPT ?e{i} {{ TYPE \"Event\" NAME \"dry{round}_{i}\" SET ATTRIBUTES {{summary: \"s\"}} }}"))
+                        .collect();
+                    Cmd::new("PREVIEW KML :kml").param("kml", json!(format!("MUTATE {{ {} }}", cl.join(" "))))
+                }
+            };
+            let o = exec(&Via::System(&nexus), &cmd).await?;
+            if o.committed() {
+                commits.fetch_add(1, Ordering::SeqCst);
+                wst.count("vis_writer_commits");
+            } else {
+                wst.count("vis_writer_non_commits");
+            }
+            tokio::task::yield_now().await;
+        }
+        done.store(true, Ordering::SeqCst);
+        for r in readers {
+            match r.await {
+                Ok(s) => wst.merge(s),
+                Err(e) => return Err(format!("reader task: {e}")),
+            }
+        }
+        Ok(wst)
+    });
+    match res {
+        Ok(s) => {
+            st.merge(s);
+            st.eval();
+        }
+        Err(e) => st.inconclusive(format!("C17 vis: harness trouble: {e}")),
+    }
+}
+
+// ---------------------------------------------------------------------------------------------
+// monitor 3: crash prefixes
+
+fn crash_case(case: u64, rng: &mut Rng, st: &mut Stats, n_stmts: usize, max_prefixes: usize) {
+    let r = vcore::run::block_on(crash_case_async(case, rng, st, n_stmts, max_prefixes));
+    if let Err(e) = r {
+        st.inconclusive(format!("C17 crash: harness trouble: {e}"));
+    }
+}
+
+async fn crash_case_async(case: u64, rng: &mut Rng, st: &mut Stats, n_stmts: usize, max_prefixes: usize) -> Result<(), String> {
+    let rec = RecStore::new();
+    let name = format!("c17k_{case}");
+    let fx = fixture(Arc::new(rec.clone()), &name, false).await?;
+    let base = rec.landed() as usize;
+    let mut g = Gen { uid: 0, tag: format!("k{case}") };
+    let mut texts = vec![];
+    // (mutations landed when the statement returned, journal seqs committed so far)
+    let mut acked: Vec<(usize, BTreeSet<u64>)> = vec![];
+    let mut committed: BTreeSet<u64> = BTreeSet::new();
+    for _ in 0..n_stmts {
+        let w = world_of(&scan(&fx.nexus).await?);
+        let mut stmt = gen_stmt(rng, &mut g, &w, None, &CFG_C17);
+        if stmt.dry == "preview" || stmt.restricted {
+            continue;
+        }
+        stmt.cmd.dry_run = false;
+        let out = exec(&Via::System(&fx.nexus), &stmt.cmd).await?;
+        if out.committed() {
+            committed.insert(out.space_seq.unwrap());
+        }
+        texts.push(json!({"cmd": stmt.cmd.describe(), "committed_at_seq": out.space_seq, "error": out.error_code}));
+        acked.push((rec.landed() as usize, committed.clone()));
+    }
+    let total = rec.landed() as usize;
+    let mut ks: Vec<usize> = (base..=total).collect();
+    if ks.len() > max_prefixes {
+        rng.shuffle(&mut ks);
+        ks.truncate(max_prefixes);
+        ks.sort_unstable();
+    }
+    st.add("crash_mutations_in_workloads", (total - base) as u64);
+    for k in ks {
+        let disk = rec.materialize(k).await;
+        st.count("crash_prefixes");
+        st.eval();
+        let cx = || json!({"case": case, "crash_after_mutation": k, "first_workload_mutation": base, "total_mutations": total, "statements": texts});
+        let nexus = match open_nexus(disk, &name).await {
+            Ok(n) => n,
+            Err(e) => {
+                report_once(st, "C17/crash/reopen_failed", || json!({"error": e, "context": cx()}));
+                continue;
+            }
+        };
+        st.count("crash_reopen_ok");
+        let sc = scan(&nexus).await?;
+        let p = pending_ids(&sc);
+        if !p.is_empty() {
+            report_once(st, "C17/crash/pending_row_survives_reopen", || json!({"pending": p, "context": cx()}));
+        }
+        for kind in KINDS {
+            match read(&nexus, &format!("FIND(COUNT(?x)) WHERE {{ ?x {kind} {{state: \"pending\"}} }}")).await {
+                Ok(v) if v[0].as_u64() == Some(0) => {}
+                Ok(v) => report_once(st, "C17/crash/pending_row_visible_to_query", || json!({"kind": kind, "answer": v, "context": cx()})),
+                Err(e) => report_once(st, "C17/crash/query_fails_after_reopen", || json!({"kind": kind, "error": e, "context": cx()})),
+            }
+            st.count("crash_pending_queries");
+        }
+        // measurements (documented: no write-ahead log, a crash during commit can leave elements)
+        let journal: BTreeSet<u64> = sc["transactions"].values().filter(|r| r["space"] == DEFAULT_SPACE).filter_map(|r| r["seq"].as_u64()).collect();
+        let orphan = elements(&sc).values().filter(|r| r["space"] == DEFAULT_SPACE).any(|r| r["seq"].as_u64().map(|s| !journal.contains(&s)).unwrap_or(false));
+        if orphan {
+            st.count("crash_states_with_elements_of_an_unjournalled_commit(measured)");
+        }
+        let must: BTreeSet<u64> = acked.iter().filter(|(l, _)| *l <= k).map(|(_, c)| c.clone()).last().unwrap_or_default();
+        if !must.is_subset(&journal) {
+            st.count("crash_states_missing_an_acknowledged_commit(measured; durability is C01)");
+        }
+        // the reopened engine keeps working
+        let o = exec(&Via::System(&nexus), &Cmd::new("CREATE CONCEPT ?x { TYPE \"Person\" NAME \"after crash\" }")).await?;
+        if o.committed() {
+            st.count("crash_reopened_engine_commits");
+        } else {
+            st.count("crash_reopened_engine_refuses_write(measured)");
+        }
+    }
+    st.distinct(vcore::hash_debug(&texts));
+    Ok(())
+}
+
+// ---------------------------------------------------------------------------------------------
+
 fn main() {
-    println!("INCONCLUSIVE property=C17 monitor not built yet");
-    std::process::exit(2);
+    let mut run = Run::from_args(
+        "C17",
+        "exploration",
+        "seeded sequences of generated KML statements (multi-clause MUTATE blocks with forward \
+         references, UPSERT/ENSURE hits and misses, guards, 14 injected failure classes at \
+         first/middle/last position, dry runs, retries) against the bundled cognitive-memory \
+         profile; a sequence is non-trivial when it has >= 3 commits and >= 3 refusals with >= 2 \
+         error codes (distinct by statement texts)",
+    );
+    run.assume("observation = the ten cognitive collections (governance/audit collections are a separate plane and excluded) + the KQL/META battery; collection counters (max_document_id, stats) and index residue are not observed");
+    run.assume("answers of queries without ORDER BY are compared as multisets of rows");
+    run.assume("masked as legitimately tied to the Space counter: spaces.seq, DESCRIBE SPACE.seq, (DESCRIBE) SNAPSHOT snapshot_seq/snapshot_token");
+    run.assume("SEARCH is not part of the battery (scores depend on index statistics, documented as grounding only)");
+    run.assume("crash model: each object-store mutation is atomic, the sequence is interruptible anywhere; partial commits at a crash are measured, not asserted (tx.rs documents no write-ahead log)");
+    let t = run.tier;
+    if run.wants("seq") {
+        run.parallel("seq", t.pick(120, 4000), 0.6, |c, rng, st| seq_case(c, rng, st, t.pick(14, 18)));
+    }
+    if run.wants("vis") {
+        // every second case has no PREVIEW among the writer's statements: pending rows seen by a
+        // reader there would come from a committing or refused statement
+        run.parallel("vis", t.pick(8, 120), 0.4, |c, rng, st| vis_case(c, rng, st, t.pick(40, 120), c % 2 == 0));
+    }
+    if run.wants("crash") {
+        run.parallel("crash", t.pick(6, 60), 0.9, |c, rng, st| crash_case(c, rng, st, 5, t.pick(30, 100000)));
+    }
+    run.floor("stmt_committed", 200);
+    run.floor("stmt_refused", 200);
+    run.floor("stmt_committed_no_effect", 10);
+    run.floor("dry_run:option:would_commit", 20);
+    run.floor("dry_run:preview:would_commit", 20);
+    run.floor("dry_run:option:refused", 5);
+    run.floor("multi_clause_statements", 300);
+    run.floor("oracle_obs_equal", 300);
+    run.floor("oracle_version_delta_named", 500);
+    run.floor("oracle_version_log_rows", 200);
+    run.floor("oracle_identity_scan", 500);
+    run.floor("oracle_burnt_coordinate_reads_as_previous", 100);
+    for p in ["first", "middle", "last"] {
+        run.floor(&format!("refused_position:{p}"), 25);
+    }
+    for c in FAIL_CLASSES {
+        run.floor(&format!("refused_class:{c}"), 3);
+    }
+    for k in ["clause:ensure_hit", "clause:upsert_hit", "clause:upsert_miss", "clause:update_again", "clause:supersede", "clause:merge", "clause:assert_sugar", "retries_of_identical_request"] {
+        run.floor(k, 10);
+    }
+    run.floor_set("refusal_class_x_position", 30);
+    run.floor("vis_reads_overlapping_or_following_a_commit", 50);
+    run.floor("vis_writer_commits", 50);
+    run.floor("crash_prefixes", 100);
+    run.floor("crash_reopen_ok", 100);
+    run.finish();
 }
